@@ -220,6 +220,41 @@ def audit(prop):
     return res, out
 
 
+def project_closure(modules):
+    """project-local import closure (UralModel.* / Driver.*) of the given Lean modules"""
+    seen, stack = [], list(modules)
+    while stack:
+        m = stack.pop()
+        if m in seen:
+            continue
+        p = os.path.join(LEAN, m.replace(".", os.sep) + ".lean")
+        if not os.path.exists(p):
+            continue
+        seen.append(m)
+        for line in open(p, encoding="utf-8"):
+            mm = re.match(r"\s*(?:public\s+)?import\s+(\S+)", line)
+            if mm and mm.group(1).split(".")[0] in ("UralModel", "Driver"):
+                stack.append(mm.group(1))
+    return sorted(seen)
+
+
+def kernel_recheck(prop):
+    """thorough tier: every declaration of the property module and of every project module it
+    imports is replayed through Lean's kernel by the independent re-checker `leanchecker`
+    (reads the compiled .olean files; rejects declarations the kernel does not accept, e.g.
+    what a bug in the elaborator or a tampered .olean would let through)."""
+    mods = project_closure([prop.LEAN_MODULE] + list(getattr(prop, "EXTRA_IMPORTS", [])))
+    t0 = time.time()
+    with LeanLock():
+        try:
+            rc, out = run(["lake", "env", "leanchecker"] + mods, cwd=LEAN, timeout=2400)
+        except subprocess.TimeoutExpired:
+            raise Infra("leanchecker timed out")
+        except OSError as e:
+            raise Infra("leanchecker not runnable: %s" % e)
+    return {"modules": len(mods), "ok": rc == 0, "wall_s": round(time.time() - t0, 1), "tail": out[-1500:] if rc else ""}
+
+
 # --------------------------------------------------------------------------------------
 # correspondence + oracle (worker side)
 # --------------------------------------------------------------------------------------
@@ -504,6 +539,11 @@ def run_check(pid, tier="quick", seed=0, replay=None):
     hits = forbidden_tokens()
     for h in hits:
         broken.append(("forbidden-token", h))
+    recheck = None
+    if ok and tier == "thorough" and replay is None and os.environ.get("VERIF_NO_RECHECK") != "1":
+        recheck = kernel_recheck(prop)
+        if not recheck["ok"]:
+            broken.append(("kernel-recheck", "leanchecker rejects a compiled module: %s" % recheck["tail"][-600:]))
 
     n_obl = len(prop.THEOREMS) + len(getattr(prop, "TABLE_OBLIGATIONS", []))
     n_dis = sum(1 for r in audit_res.values() if r["present"] and r["ok"])
@@ -632,6 +672,8 @@ def run_check(pid, tier="quick", seed=0, replay=None):
             % (prop.LEAN_MODULE, pid),
             "trusted_base": list(getattr(prop, "TRUSTED", [])),
             "theorems": {n: r["axioms"] for n, r in audit_res.items()},
+            "kernel_recheck": recheck
+            or "quick tier: not run (thorough tier replays the property module and its project imports through leanchecker)",
             "table_obligations": list(getattr(prop, "TABLE_OBLIGATIONS", [])),
             "translator_digest": tr.get("digest"),
             "translator_changed": tr.get("changed", []),
